@@ -12,11 +12,13 @@ import json
 import random
 
 from .. import gen
+from .. import pristine
 from ..common import Harness, begin_run, ref_outcomes
 from ..rng import run_rng, stable_hash, weighted
 from ..trace import Sim
 
 ID = "C04"
+USE_PRISTINE = True
 NAME = "c04"
 LEVEL = "exploration"
 BUDGET = {"quick": 70, "thorough": 900}
@@ -151,6 +153,14 @@ def execute(scen):
         for r in second["regs"]:
             h.w.register("g", r[0], r[1] if len(r) > 1 else None)
     f = scen["fault"]
+    # the same calls made first on a fresh function *in a process that has made no other call*
+    # (the in-process reference shares whatever library-level state earlier scenarios left behind)
+    plain = [{k: v for k, v in c.items() if k != "on"} for c in scen["history"] if "flood" not in c]
+    uniq = list({json.dumps(c, sort_keys=True): c for c in plain}.values())
+    req = [(spec, regs, uniq)] + ([(spec, second["regs"], uniq)] if second else [])
+    pres = pristine.refs(req)
+    pristine_ref = {(t, json.dumps(c, sort_keys=True)): o
+                    for t, outs in zip(("f", "g"), pres) for c, o in zip(uniq, outs)}
     violation = None
     trace = []
     states = []
@@ -205,6 +215,14 @@ def execute(scen):
         prev_state = st
         cc = {k: v for k, v in c.items() if k != "on"}
         ref = ref_outcomes(spec, tregs, [cc], scen["label"])[0]
+        pref = pristine_ref[(target, json.dumps(cc, sort_keys=True))]
+        if out == ref and out != pref:
+            violation = {"clause": "a call's outcome differs from the same call made first on a fresh function "
+                                   "in a process that made no other call",
+                         "op_index": i, "call": c, "observed": out, "expected": pref,
+                         "after_fault": bool(f is not None and i > f["at"] and fired),
+                         "symptom": symptom(out, pref) + ":process-history"}
+            break
         if out != ref:
             violation = {"clause": "a call's outcome in a history differs from the same call made first on a fresh function",
                          "op_index": i, "call": c, "observed": out, "expected": ref,
